@@ -263,7 +263,7 @@ def run(ctx):
     kinds = {}
     distinct = set()
     reqs, wants, infos = [], [], []
-    n = ctx.n(150, 4000)
+    n = ctx.n(400, 6000)
     for t in range(n):
         mode = MODES[t % 5]
         c = gen_conf(rng, mode, root)
@@ -288,6 +288,14 @@ def run(ctx):
         tmpl = b"".join(b"%s=${%s}\n" % (nm.encode(), nm.encode()) for nm in names + [x for x in extra if x not in names])
         if t % 10 == 3 and mode == "robsd-regress":
             tmpl = b" ".join([b"${rdomain}"] * 40) + b"\n" + b"\n".join([b"${rdomain} ${rdomain}"] * 120) + b"\n"
+        bad_tmpl = False
+        if t % 3 == 0 and (t // 15) % 4 == 1 and not (t % 10 == 3 and mode == "robsd-regress"):
+            bad_tmpl = True
+            # ... and one reference that must fail the whole template (unknown variable, malformed)
+            bad = rng.choice([b"x=${no-such-variable}\n", b"x=${no-such-variable}\n", b"x=${nope} ${arch}\n", b"x=${\n", b"x=$y\n", b"x=${}\n"])
+            lines_ = tmpl.split(b"\n")
+            k = rng.randint(0, len(lines_) - 1)
+            tmpl = b"\n".join(lines_[:k]) + (b"\n" if k else b"") + bad + b"\n".join(lines_[k:])
         if t % 3 == 0:
             file = c.render(rng)
             kind = "valid"
@@ -308,7 +316,12 @@ def run(ctx):
             ctx.violation("robsd-config -m %s: abnormal termination (rc=%s)" % (mode, rc), dict(info, report=rep))
             continue
         # ---- the property, from the generator's knowledge alone
-        if kind == "valid":
+        if kind == "valid" and bad_tmpl:
+            # the configuration is fine, the template is not: nothing may be printed, exit 1, a diagnostic
+            if rc != 1 or out != b"" or err == b"":
+                ctx.violation("robsd-config -m %s: a template with a failing reference gave exit %s and %d bytes of output" % (mode, rc, len(out)), info)
+            kinds["failing-template"] = kinds.get("failing-template", 0) + 1
+        elif kind == "valid":
             if rc != 0:
                 ctx.violation("a %s configuration that follows the documented grammar is rejected" % mode, info)
             else:
